@@ -155,6 +155,8 @@ def run(args):
             check_rows(R, net, start, syn._name, desc)
         except AssertionError as ex:
             R.spec_fail(dict(kind="builder-assert"), f"{builder} raised AssertionError {ex}", desc, repr(ex))
+        except Exception as ex:       # legal populations: any other exception of a builder is a failure of the property as well
+            R.spec_fail(dict(kind="builder-raises", builder=builder, err=type(ex).__name__), f"{builder} builder raises {type(ex).__name__}: {str(ex)[:150]} for pre cells {pre}, post cells {post}", desc, repr(ex)[:200])
         if len(R.samples) < 4:
             R.samples.append(dict(desc=desc, edges=list(zip(*[x.tolist() for x in edges_of(net, start)[:2]]))))
     for (desc, impl), o in zip(checks, drv.batch(lines)):
